@@ -52,7 +52,7 @@ def literals(res):
     for bad in ("'\\x4'", "'\\xg1'", "b'\\x'", "'\\x'"):
         add(bad)
     # \u, \U
-    step = 1 if thorough else 16
+    step = 1 if thorough else 4
     for v in range(res.seed % step, 0x10000, step):
         add("'\\u%04x'" % v)
     for v in [0, 0x7f, 0x80, 0xff, 0x100, 0x7ff, 0x800, 0xd7ff, 0xd800, 0xdbff, 0xdc00, 0xdfff, 0xe000, 0xfffd, 0xfffe, 0xffff]:
@@ -66,7 +66,7 @@ def literals(res):
     add("'\\U0001F60'")
     add("'\\u123'")
     # \N{name}
-    cps = [0x41, 0xe9, 0x2022, 0x3042, 0x1f600, 0x20ac, 0x5d0, 0x10ffff, 0x0, 0x7f, 0xa0] + [rng.randrange(0x30000) for _ in range(6000 if thorough else 800)]
+    cps = [0x41, 0xe9, 0x2022, 0x3042, 0x1f600, 0x20ac, 0x5d0, 0x10ffff, 0x0, 0x7f, 0xa0] + [rng.randrange(0x30000) for _ in range(6000 if thorough else 2500)]
     for cp in cps:
         try:
             nm = unicodedata.name(chr(cp))
@@ -104,7 +104,7 @@ def literals(res):
     pool_t = ["'a'", '"b"', "'''c'''", "r'\\n'", "u'd'", "U'e'", "'\\x41'", "'é'", "''", "'\\ud800'", "f'{x}'", "f'q'", "rf'\\d{y}'", "'\\N{BULLET}'"]
     pool_b = ["b'a'", 'B"b"', "rb'\\n'", "b'\\x00\\xff'", "b''", "bR'''c'''"]
     for n in (2, 3, 4):
-        for _ in range(1500 if thorough else 250):
+        for _ in range(1500 if thorough else 700):
             add(" ".join(rng.choice(pool_t) for _ in range(n)))
             add(rng.choice([" ", "  ", "\t"]).join(rng.choice(pool_b) for _ in range(n)))
     add("'a' b'b'")
@@ -147,7 +147,7 @@ def literals(res):
     for f in floats:
         add(f)
         add(f + "j")
-    for _ in range(30000 if thorough else 4000):
+    for _ in range(30000 if thorough else 12000):
         b = rng.getrandbits(64)
         f = struct.unpack("<d", struct.pack("<Q", b))[0]
         if f == f and abs(f) != float("inf"):
@@ -157,7 +157,7 @@ def literals(res):
                 # same value with more digits / halfway perturbations
                 add(("%.30e" % abs(f)))
                 add(("%.17g" % abs(f)))
-    for _ in range(6000 if thorough else 1000):
+    for _ in range(6000 if thorough else 3000):
         m = "".join(rng.choice("0123456789") for _ in range(rng.randint(1, 25)))
         i = rng.randint(0, len(m))
         add(m[:i] + "." + m[i:] + rng.choice(["", "e%d" % rng.randint(-340, 310), "E+%d" % rng.randint(0, 30), "j"]))
